@@ -48,6 +48,20 @@ func c09Profiles() []c09Seed {
 	d = v43.Build()
 	base = 132 + 24 + len(fillerBlock(1))
 	out = append(out, c09Seed{"icc v4 mluc x3", d, true, []int{0, 128, 136, 140, 148, 152, base + 8, base + 12, base + 20, base + 24, base + 36, base + 40, base + 52, base + 56}})
+	// v2 description whose ASCII part is empty and whose Unicode and ScriptCode parts
+	// are present (a reader that falls back to them parses their counts too)
+	{
+		uni := []byte("desc\x00\x00\x00\x00\x00\x00\x00\x01\x00") // ASCII count 1: just the terminator
+		uni = append(uni, 0, 0, 0, 0)                             // Unicode language code
+		uni = append(uni, 0, 0, 0, 5)                             // Unicode count (UTF-16 code units incl. terminator)
+		uni = append(uni, 0, 'N', 0, 'a', 0, 'm', 0, 'e', 0, 0)
+		uni = append(uni, 0, 0, 4, 'M', 'a', 'c', 0) // ScriptCode code, count, text
+		uni = append(uni, make([]byte, 63)...)
+		vu := gen.ICCLayout{Major: 2, Tags: []gen.ICCTag{{Sig: gen.Sig("desc"), Block: 0}}, Blocks: [][]byte{uni}}
+		d = vu.Build()
+		base = 132 + 12
+		out = append(out, c09Seed{"icc v2 desc empty ASCII + Unicode", d, true, []int{0, 128, 136, 140, base + 8, base + 17}})
+	}
 	out = append(out, c09Seed{"icc no tags", gen.ICCLayout{Major: 4}.Build(), true, []int{0, 128}})
 	return out
 }
